@@ -1791,3 +1791,558 @@ Proof.
   - destruct H as [H1 H2]. apply (prune_tree_at_satisfies_g tsep t st s0); assumption.
   - apply (get_subtree_at_satisfies_g tsep t st s0); assumption.
 Qed.
+
+(* ============================================================================================
+   15. replace(sep, tree.sep) on a rendered path
+   ============================================================================================ *)
+
+Lemma replace_go_name old new x : forall rest fuel,
+  old <> [] -> sfree old x -> length x <= fuel ->
+  replace_go fuel old new (x ++ rest) = x ++ replace_go (fuel - length x) old new rest.
+Proof.
+  induction x as [|c x IH]; intros rest fuel Ho Hf Hl.
+  - cbn [app length]. rewrite Nat.sub_0_r. reflexivity.
+  - destruct fuel as [|f]; [cbn in Hl; lia|]. apply sfree_cons in Hf as [Hc Hx].
+    cbn [app replace_go length Nat.sub]. rewrite (startswith_first_differs c (x ++ rest) old Ho Hc).
+    f_equal. apply IH; [exact Ho|exact Hx|cbn in Hl; lia].
+Qed.
+
+Lemma replace_go_sep old new rest fuel :
+  old <> [] -> replace_go (S fuel) old new (old ++ rest) = new ++ replace_go fuel old new rest.
+Proof.
+  intros Ho. destruct old as [|a o]; [contradiction|]. cbn [app replace_go].
+  change (a :: o ++ rest) with ((a :: o) ++ rest). rewrite startswith_app, skipn_app_exact. reflexivity.
+Qed.
+
+Lemma replace_go_nil fuel old new : replace_go fuel old new [] = [].
+Proof. destruct fuel; reflexivity. Qed.
+
+Lemma length_join_cons sp (x : str) L : length x + length sp <= length (join sp (x :: L)) \/ L = [].
+Proof.
+  destruct L as [|y L]; [right; reflexivity|left]. rewrite join_cons, !app_length. lia.
+Qed.
+
+Lemma replace_go_join old new : forall L fuel,
+  old <> [] -> Forall (sfree old) L -> length (join old L) <= fuel ->
+  replace_go fuel old new (join old L) = join new L.
+Proof.
+  induction L as [|x L IH]; intros fuel Ho HF Hl; [apply replace_go_nil|].
+  inversion HF as [|? ? Hx HL]; subst. destruct L as [|y L].
+  - cbn [join]. rewrite <- (app_nil_r x) at 1. rewrite (replace_go_name old new x [] fuel Ho Hx Hl).
+    rewrite replace_go_nil, app_nil_r. reflexivity.
+  - rewrite !join_cons. rewrite join_cons, !app_length in Hl.
+    rewrite (replace_go_name old new x _ fuel Ho Hx) by lia.
+    assert (Hlen : 1 <= length old) by (destruct old; [contradiction|cbn; lia]).
+    destruct (fuel - length x) as [|f] eqn:Ef; [lia|].
+    rewrite (replace_go_sep old new _ f Ho). f_equal. f_equal. apply IH; [exact Ho|exact HL|lia].
+Qed.
+
+Theorem replace_join old new L :
+  old <> [] -> Forall (sfree old) L -> replace (join old L) old new = join new L.
+Proof.
+  intros Ho HF. unfold replace. destruct old as [|a o] eqn:E; [contradiction|]. rewrite <- E in *.
+  apply replace_go_join; [exact Ho|exact HF|lia].
+Qed.
+
+(* a path as users write it: optional leading separator, names joined by the separator, k trailing
+   separators *)
+Definition rendered (sp : str) (lead : bool) (L : list str) (k : nat) : str :=
+  (if lead then sp else []) ++ join sp L ++ repeat_str sp k.
+
+Lemma join_empty_front sp (M : list str) : M <> [] -> join sp ([] :: M) = sp ++ join sp M.
+Proof. destruct M; [contradiction|]. intros _. rewrite join_cons. reflexivity. Qed.
+
+Lemma join_empty_back sp : forall (M : list str) k, M <> [] ->
+  join sp (M ++ repeat [] k) = join sp M ++ repeat_str sp k.
+Proof.
+  intros M k HM. induction k as [|k IH].
+  - cbn [repeat]. rewrite app_nil_r. cbn. rewrite app_nil_r. reflexivity.
+  - replace (M ++ repeat [] (S k)) with ((M ++ repeat [] k) ++ [[]]).
+    2:{ rewrite <- app_assoc. f_equal. change ([]:: repeat [] k) with (repeat ([] : str) (S k)).
+        symmetry. apply (repeat_cons k ([] : str)). }
+    assert (G : forall (A : list str) (z : str), A <> [] -> join sp (A ++ [z]) = join sp A ++ sp ++ z).
+    { induction A as [|a A IHA]; intros z HA; [contradiction|]. destruct A as [|b A].
+      - reflexivity.
+      - cbn [app]. rewrite join_cons. cbn [app] in IHA. rewrite (IHA z) by discriminate.
+        rewrite join_cons, <- !app_assoc. reflexivity. }
+    rewrite G by (destruct M; [contradiction|discriminate]).
+    rewrite IH, app_nil_r, <- app_assoc, repeat_str_S, <- repeat_str_comm. reflexivity.
+Qed.
+
+Lemma rendered_as_join sp lead L k :
+  L <> [] -> rendered sp lead L k = join sp ((if lead then [[]] else []) ++ L ++ repeat [] k).
+Proof.
+  intros HL. unfold rendered. destruct lead; cbn [app].
+  - rewrite join_empty_front by (destruct L; [contradiction|discriminate]).
+    rewrite join_empty_back by exact HL. reflexivity.
+  - rewrite join_empty_back by exact HL. reflexivity.
+Qed.
+
+Theorem replace_rendered sep tsep lead L k :
+  sep <> [] -> L <> [] -> Forall (sfree sep) L ->
+  replace (rendered sep lead L k) sep tsep = rendered tsep lead L k.
+Proof.
+  intros Hs HL HF. rewrite !rendered_as_join by exact HL. apply replace_join; [exact Hs|].
+  apply Forall_app. split; [destruct lead; repeat constructor; intros ch _ []|].
+  apply Forall_app. split; [exact HF|]. apply Forall_forall. intros x Hx.
+  apply repeat_spec in Hx. subst. intros ch _ [].
+Qed.
+
+(* the prune paths users actually pass — names of the tree written with the `sep` argument — satisfy
+   the guard of the _multi theorems when no character of either separator occurs in the names *)
+Definition rendered_ok (tsep sep s : str) : Prop :=
+  exists lead L k, L <> [] /\ Forall (sgood tsep) L /\ Forall (sfree sep) L /\ s = rendered sep lead L k.
+
+Theorem paths_ok_of_rendered tsep sep paths :
+  tsep <> [] -> sep <> [] -> Forall (rendered_ok tsep sep) paths -> paths_ok tsep sep paths.
+Proof.
+  intros Ht Hs HF. unfold paths_ok. apply Forall_forall. intros s Hin.
+  destruct (proj1 (Forall_forall _ _) HF s Hin) as [lead [L [k [HL [Hg [Hf ->]]]]]].
+  rewrite (replace_rendered sep tsep lead L k Hs HL Hf). unfold rendered.
+  apply strip_ok_wellformed; assumption.
+Qed.
+
+(* ============================================================================================
+   16. BinaryNode depth cut: level groups + `del children` = the structural cut
+   ============================================================================================ *)
+
+(* keep k+1 levels; a real node of the last level gets two empty slots; slots never move *)
+Fixpoint cutb (k : nat) (t : tree) {struct t} : tree :=
+  match t with
+  | T g n a ks =>
+      if is_nil n then t else
+      match k with 0 => T g n a [HOLE; HOLE] | S k' => T g n a (map (cutb k') ks) end
+  end.
+
+Definition nh (t : tree) (p : pos) : bool := negb (is_hole_at t p).
+
+Definition del_fold_b (ps : list pos) (t : tree) : tree :=
+  fold_left (fun acc p => del_children_at_b p acc) ps t.
+
+Lemma del_fold_b_child ps : forall g n a done c r,
+  del_fold_b (map (cons (length done)) ps) (T g n a (done ++ c :: r)) =
+  T g n a (done ++ del_fold_b ps c :: r).
+Proof.
+  induction ps as [|p ps IH]; intros g n a done c r; [reflexivity|].
+  unfold del_fold_b in *. cbn [map fold_left del_children_at_b]. rewrite upd_nth_app. apply IH.
+Qed.
+
+Lemma del_fold_b_app ps qs t : del_fold_b (ps ++ qs) t = del_fold_b qs (del_fold_b ps t).
+Proof. unfold del_fold_b. apply fold_left_app. Qed.
+
+Lemma nth_error_app_len {A} (done : list A) c r : nth_error (done ++ c :: r) (length done) = Some c.
+Proof. induction done as [|x done IH]; [reflexivity|exact IH]. Qed.
+
+(* the hole test of a position below the root looks at the child it goes through *)
+Lemma nh_child g n a ks i c p : nth_error ks i = Some c -> nh (T g n a ks) (i :: p) = nh c p.
+Proof. intros H. unfold nh, is_hole_at. cbn [subtree_at tkids]. rewrite H. reflexivity. Qed.
+
+Lemma filter_level_kids k g n a : forall ks done,
+  filter (nh (T g n a (done ++ ks)))
+         (concat (mapi_from (fun i c => map (cons i) (level_pos k c)) (length done) ks)) =
+  concat (mapi_from (fun i c => map (cons i) (filter (nh c) (level_pos k c))) (length done) ks).
+Proof.
+  induction ks as [|c r IH]; intros done; [reflexivity|].
+  cbn [mapi_from concat]. rewrite filter_app. f_equal.
+  - rewrite filter_map_comm. f_equal. apply filter_ext_in'. intros p _.
+    apply nh_child. apply nth_error_app_len.
+  - specialize (IH (done ++ [c])). rewrite <- app_assoc in IH. cbn [app] in IH.
+    rewrite app_length in IH. cbn [length] in IH. rewrite Nat.add_1_r in IH. exact IH.
+Qed.
+
+Lemma del_fold_b_level k :
+  (forall c, holes_leaf c = true -> del_fold_b (filter (nh c) (level_pos k c)) c = cutb k c) ->
+  forall ks g n a done, forallb holes_leaf ks = true ->
+    del_fold_b (concat (mapi_from (fun i c => map (cons i) (filter (nh c) (level_pos k c))) (length done) ks))
+               (T g n a (done ++ ks)) =
+    T g n a (done ++ map (cutb k) ks).
+Proof.
+  intros Hk. induction ks as [|c r IH]; intros g n a done HL; [reflexivity|].
+  cbn [forallb] in HL. apply andb_true_iff in HL as [HLc HLr].
+  cbn [mapi_from concat map]. rewrite del_fold_b_app, del_fold_b_child, (Hk c HLc).
+  replace (done ++ cutb k c :: r) with ((done ++ [cutb k c]) ++ r) by (rewrite <- app_assoc; reflexivity).
+  replace (S (length done)) with (length (done ++ [cutb k c])) by (rewrite app_length; cbn; lia).
+  rewrite (IH g n a _ HLr). rewrite <- app_assoc. reflexivity.
+Qed.
+
+Lemma del_level_cutb k : forall t,
+  holes_leaf t = true -> del_fold_b (filter (nh t) (level_pos k t)) t = cutb k t.
+Proof.
+  induction k as [|k IH]; intros [g n a ks] HL.
+  - cbn [level_pos filter]. unfold nh, is_hole_at, is_hole. cbn [subtree_at tname cutb].
+    destruct (is_nil n); reflexivity.
+  - cbn [holes_leaf] in HL. apply andb_true_iff in HL as [HLn HLs]. cbn [cutb].
+    destruct (is_nil n) eqn:En.
+    + cbn [negb orb] in HLn. destruct ks; [reflexivity|discriminate].
+    + cbn [level_pos tkids].
+      pose proof (filter_level_kids k g n a ks []) as E. cbn [app length] in E. rewrite E.
+      exact (del_fold_b_level k IH ks g n a [] HLs).
+Qed.
+
+Theorem binary_depth_cut k t :
+  holes_leaf t = true -> depth_cut_x true (S k) t = cutb k t.
+Proof. intros HL. cbn [depth_cut_x]. apply (del_level_cutb k t HL). Qed.
+
+Lemma real_obs_depth_pos t l : In l (real_obs t) -> 1 <= lbl_depth l.
+Proof. unfold real_obs. intros H. apply filter_In in H as [H _]. apply (obs_depth_pos t l H). Qed.
+
+Lemma real_obs_HOLE : real_obs HOLE = [].
+Proof. reflexivity. Qed.
+
+(* exactly the real nodes of depth <= k+1 remain *)
+Lemma cutb_real_obs t : forall k,
+  holes_leaf t = true ->
+  real_obs (cutb k t) = filter (fun l => Nat.leb (lbl_depth l) (S k)) (real_obs t).
+Proof.
+  induction t as [g n a ks IH] using tree_ind'. intros k HL. cbn [cutb].
+  destruct (is_nil n) eqn:En.
+  - rewrite (real_obs_hole (T g n a ks)); [reflexivity|exact En|exact HL].
+  - cbn [holes_leaf] in HL. apply andb_true_iff in HL as [_ HLs].
+    rewrite (real_obs_unfold g n a ks), En. cbn [negb app filter lbl_depth Nat.leb].
+    destruct k as [|k].
+    + rewrite real_obs_unfold, En. cbn [negb app flat_map]. rewrite real_obs_HOLE. cbn [map app].
+      apply (f_equal (cons (1, n, a))). symmetry. apply filter_none.
+      intros l Hl. apply in_flat_map in Hl as [c [_ Hl]]. apply in_map_iff in Hl as [l' [<- Hl']].
+      apply real_obs_depth_pos in Hl'. rewrite lbl_depth_up. apply Nat.leb_gt. lia.
+    + rewrite real_obs_unfold, En. cbn [negb app]. apply (f_equal (cons (1, n, a))).
+      induction ks as [|c r IHr]; [reflexivity|]. inversion IH as [|? ? Hc Hr]; subst.
+      cbn [forallb] in HLs. apply andb_true_iff in HLs as [HLc HLr].
+      cbn [map flat_map]. rewrite filter_app, <- (IHr Hr HLr). f_equal.
+      rewrite (Hc k HLc), filter_map_comm. f_equal. apply filter_ext_in'. intros l _.
+      rewrite lbl_depth_up. reflexivity.
+Qed.
+
+Theorem binary_depth_cut_real k t :
+  holes_leaf t = true ->
+  real_obs (depth_cut_x true (S k) t) = filter (fun l => Nat.leb (lbl_depth l) (S k)) (real_obs t).
+Proof. intros HL. rewrite (binary_depth_cut k t HL). apply cutb_real_obs. exact HL. Qed.
+
+(* slots: one step of cutb at a real node *)
+Theorem cutb_slots k g n a ks :
+  is_nil n = false ->
+  cutb 0 (T g n a ks) = T g n a [HOLE; HOLE] /\
+  cutb (S k) (T g n a ks) = T g n a (map (cutb k) ks) /\
+  (forall i, nth_error (tkids (cutb (S k) (T g n a ks))) i = option_map (cutb k) (nth_error ks i)) /\
+  (forall h, is_hole h = true -> cutb k h = h).
+Proof.
+  intros En. cbn [cutb]. rewrite En. repeat split.
+  - intros i. cbn [tkids]. apply nth_error_map'.
+  - intros [g' n' a' ks'] Hh. unfold is_hole in Hh. cbn [tname] in Hh. cbn [cutb]. rewrite Hh. reflexivity.
+Qed.
+
+(* ============================================================================================
+   17. BinaryNode addressing: the search skips empty slots = addressing among the real nodes
+   ============================================================================================ *)
+
+Lemma In_mapi_from {A B} (f : nat -> A -> B) y l : forall i,
+  In y (mapi_from f i l) -> exists j x, nth_error l j = Some x /\ y = f (i + j) x.
+Proof.
+  induction l as [|x l IH]; intros i H; [contradiction|]. cbn [mapi_from] in H. destruct H as [<-|H].
+  - exists 0, x. split; [reflexivity|]. rewrite Nat.add_0_r. reflexivity.
+  - destruct (IH (S i) H) as [j [z [Hn ->]]]. exists (S j), z. split; [exact Hn|].
+    replace (i + S j) with (S i + j) by lia. reflexivity.
+Qed.
+
+(* pre_pos lists each node with the position that leads to it *)
+Lemma pre_pos_sound t : forall p x, In (p, x) (pre_pos t) -> subtree_at t p = Some x.
+Proof.
+  induction t as [g n a ks IH] using tree_ind'. intros p x H. cbn [pre_pos] in H. destruct H as [H|H].
+  - inversion H; subst. reflexivity.
+  - apply in_concat in H as [l [Hl Hin]]. apply In_mapi_from in Hl as [j [k [Hn ->]]]. cbn [Nat.add] in Hin.
+    apply in_map_iff in Hin as [[p' x'] [E Hin]]. cbn [fst snd] in E. inversion E; subst.
+    cbn [subtree_at tkids]. rewrite Hn. apply (Forall_In _ _ _ IH (nth_error_In _ _ Hn)). exact Hin.
+Qed.
+
+Lemma is_hole_copy x : is_hole (copy_tree x) = is_hole x.
+Proof. unfold is_hole. rewrite tname_copy. reflexivity. Qed.
+
+Lemma search_space_bin t st s :
+  subtree_at t st = Some s ->
+  search_space true (copy_tree t) st =
+  map fst (filter (fun ps => prefixb st (fst ps) && negb (is_hole (snd ps))) (pre_pos t)).
+Proof.
+  intros H. unfold search_space. rewrite subtree_at_copy, H. cbn [option_map negb orb].
+  rewrite <- (filter_filter (fun ps : pos * tree => prefixb st (fst ps)) (fun ps => negb (is_hole (snd ps)))).
+  rewrite (sub_pre_pos st t s H), filter_map_comm, map_map. cbn [fst snd].
+  rewrite positions_pre_pos, positions_copy, filter_map_comm, map_map. f_equal.
+  apply filter_ext_in'. intros [p x] Hin. cbn [fst snd]. unfold is_hole_at.
+  rewrite subtree_at_copy, (pre_pos_sound s p x Hin). cbn [option_map]. rewrite is_hole_copy. reflexivity.
+Qed.
+
+Theorem find_paths_at_addressed_bin tsep t st s0 s :
+  subtree_at t st = Some s0 -> strip_ok tsep s ->
+  find_paths_pos_at true tsep (copy_tree t) st s = addressed_at true tsep t st s.
+Proof.
+  intros H Hs. unfold find_paths_pos_at, addressed_at. rewrite (search_space_bin t st s0 H).
+  rewrite filter_map_comm, filter_filter. f_equal. apply filter_ext_in'. intros [p x] _. cbn [fst snd negb orb].
+  f_equal. unfold node_path_name, spec_path_name.
+  rewrite names_along_copy, route_names, Hs, is_suffix_endswith. reflexivity.
+Qed.
+
+Definition hits_bin (tsep sep : str) (t : tree) (st : pos) (paths : list str) : list (list pos) :=
+  map (fun s => addressed_at true tsep t st (replace s sep tsep)) paths.
+
+Lemma locate_bin_missing tsep sep t st s0 paths :
+  subtree_at t st = Some s0 -> paths_ok tsep sep paths ->
+  existsb is_nil (hits_bin tsep sep t st paths) = true ->
+  exists e, locate_at true tsep sep (copy_tree t) st paths = Raise e.
+Proof.
+  intros Hst. induction paths as [|s paths IH]; intros Hok; cbn [hits_bin map existsb locate_at]; [discriminate|].
+  inversion Hok as [|? ? Hs Hrest]; subst.
+  unfold find_path_at. rewrite (find_paths_at_addressed_bin tsep t st s0 _ Hst Hs).
+  destruct (addressed_at true tsep t st (replace s sep tsep)) as [|p [|p' l]]; cbn [is_nil orb]; intros H.
+  - exists NotFoundError. reflexivity.
+  - destruct (IH Hrest H) as [e He]. exists e. rewrite He. reflexivity.
+  - exists SearchError. reflexivity.
+Qed.
+
+Lemma locate_bin_found tsep sep t st s0 paths :
+  subtree_at t st = Some s0 -> paths_ok tsep sep paths ->
+  singletons (hits_bin tsep sep t st paths) = true ->
+  locate_at true tsep sep (copy_tree t) st paths = Ret (concat (hits_bin tsep sep t st paths)).
+Proof.
+  intros Hst. induction paths as [|s paths IH]; intros Hok;
+    cbn [hits_bin map singletons forallb locate_at concat]; [reflexivity|].
+  inversion Hok as [|? ? Hs Hrest]; subst.
+  unfold find_path_at. rewrite (find_paths_at_addressed_bin tsep t st s0 _ Hst Hs).
+  destruct (addressed_at true tsep t st (replace s sep tsep)) as [|p [|p' l]]; cbn [andb]; intros H; try discriminate.
+  fold (hits_bin tsep sep t st paths). rewrite (IH Hrest H). reflexivity.
+Qed.
+
+(* the encoding invariant is kept by copying and by the surgery *)
+Lemma holes_leaf_copy t : holes_leaf (copy_tree t) = holes_leaf t.
+Proof.
+  induction t as [g n a ks IH] using tree_ind'. cbn [copy_tree holes_leaf]. f_equal.
+  - f_equal. destruct ks; reflexivity.
+  - rewrite forallb_map. induction ks as [|k r IHr]; [reflexivity|]. inversion IH as [|? ? Hk Hr]; subst.
+    cbn [forallb]. rewrite Hk, (IHr Hr). reflexivity.
+Qed.
+
+Lemma holes_leaf_filter_b t : forall alive, holes_leaf t = true -> holes_leaf (filter_tree_b alive t) = true.
+Proof.
+  induction t as [g n a ks IH] using tree_ind'. intros alive HL. cbn [holes_leaf] in HL.
+  apply andb_true_iff in HL as [HLn HLs]. cbn [filter_tree_b holes_leaf]. apply andb_true_iff. split.
+  - destruct (is_nil n); [|reflexivity]. cbn [negb orb] in *. destruct ks; [reflexivity|discriminate].
+  - clear HLn. generalize 0. induction ks as [|k r IHr]; intros i; [reflexivity|]. inversion IH as [|? ? Hk Hr]; subst.
+    cbn [forallb] in HLs. apply andb_true_iff in HLs as [HLk HLr]. cbn [mapi_from forallb].
+    rewrite (IHr Hr HLr). rewrite andb_true_r.
+    destruct (is_hole k); [exact HLk|]. destruct (alive [i]); [apply Hk; exact HLk|reflexivity].
+Qed.
+
+(* path pruning + depth limit on a BinaryNode tree called on its root, stated on the spec's addressing *)
+Theorem binary_prune_spec tsep sep t paths exact d :
+  holes_leaf t = true -> tsep <> [] -> sep <> [] -> paths <> [] -> paths_ok tsep sep paths ->
+  singletons (hits_bin tsep sep t [] paths) = true ->
+  nested (concat (hits_bin tsep sep t [] paths)) = false ->
+  exists r, prune_tree_at true tsep t [] (PList paths) exact sep d = Ret r /\
+            real_obs r =
+            map lbl_of (filter (fun ps => keep (concat (hits_bin tsep sep t [] paths)) exact (fst ps)
+                                          && negb (is_hole (snd ps))
+                                          && within_depth d (S (length (fst ps)))) (pre_pos t)).
+Proof.
+  intros HL Ht Hs Hp Hok H1 H2. unfold prune_tree_at. cbn [norm_paths subtree_at].
+  destruct paths as [|s paths]; [contradiction|]. destruct tsep as [|c0 tsep0]; [contradiction|].
+  destruct sep as [|y sep]; [contradiction|]. cbn [is_nil andb orb].
+  rewrite (locate_bin_found _ _ t [] t (s :: paths) eq_refl Hok H1).
+  eexists. split; [reflexivity|].
+  set (N := concat (hits_bin (c0 :: tsep0) (y :: sep) t [] (s :: paths))).
+  assert (HN : N <> []) by (apply singletons_nonempty; [exact H1|discriminate]).
+  assert (HLc : holes_leaf (copy_tree t) = true) by (rewrite holes_leaf_copy; exact HL).
+  assert (E : real_obs (prune_paths_at true N exact [] (copy_tree t)) =
+              map lbl_of (filter (fun ps => keep N exact (fst ps) && negb (is_hole (snd ps))) (pre_pos t))).
+  { rewrite (binary_prune_kept N exact (copy_tree t) HLc HN H2), pre_pos_copy, filter_map_comm, map_map.
+    cbn [cp fst snd]. rewrite (filter_ext_in' _ (fun ps => keep N exact (fst ps) && negb (is_hole (snd ps)))).
+    - apply map_ext. intros [p [g n a ks]]. reflexivity.
+    - intros [p x] _. cbn [fst snd]. rewrite is_hole_copy. reflexivity. }
+  destruct d as [|k].
+  - cbn [depth_cut_x]. rewrite E. f_equal. apply filter_ext_in'. intros ps _. cbn [within_depth Nat.eqb orb].
+    rewrite andb_true_r. reflexivity.
+  - rewrite binary_depth_cut_real.
+    2:{ unfold prune_paths_at. apply holes_leaf_filter_b. exact HLc. }
+    rewrite E, filter_map_comm, filter_filter. f_equal.
+Qed.
+
+Theorem binary_missing_path_error tsep sep t paths exact d s :
+  tsep <> [] -> sep <> [] -> paths_ok tsep sep paths -> In s paths ->
+  addressed_at true tsep t [] (replace s sep tsep) = [] ->
+  exists e, prune_tree_at true tsep t [] (PList paths) exact sep d = Raise e.
+Proof.
+  intros Ht Hs Hok Hin Ha. unfold prune_tree_at. cbn [norm_paths subtree_at].
+  destruct paths as [|s0 paths]; [contradiction|]. destruct tsep as [|c0 tsep0]; [contradiction|].
+  destruct sep as [|y sep]; [contradiction|]. cbn [is_nil andb orb].
+  assert (E : existsb is_nil (hits_bin (c0 :: tsep0) (y :: sep) t [] (s0 :: paths)) = true).
+  { apply existsb_exists. exists []. split; [|reflexivity]. unfold hits_bin. rewrite <- Ha.
+    apply (in_map (fun s => addressed_at true (c0 :: tsep0) t [] (replace s (y :: sep) (c0 :: tsep0)))). exact Hin. }
+  destruct (locate_bin_missing _ _ t [] t (s0 :: paths) eq_refl Hok E) as [e He]. rewrite He. exists e. reflexivity.
+Qed.
+
+(* depth limit alone on a BinaryNode tree *)
+Theorem binary_prune_depth tsep t exact sep k :
+  holes_leaf t = true -> tsep <> [] -> sep <> [] ->
+  prune_tree_at true tsep t [] (PList []) exact sep (S k) = Ret (cutb k (copy_tree t)).
+Proof.
+  intros HL Ht Hs. unfold prune_tree_at. cbn [norm_paths is_nil andb Nat.eqb subtree_at].
+  destruct tsep as [|c0 tsep0]; [contradiction|]. destruct sep as [|y sep]; [contradiction|]. cbn [is_nil orb].
+  rewrite binary_depth_cut; [reflexivity|]. rewrite holes_leaf_copy. exact HL.
+Qed.
+
+(* ============================================================================================
+   18. Any set of targets (nested or not): what the detach rule keeps
+   ============================================================================================ *)
+
+(* the targets that are not a proper ancestor of another target *)
+Definition lowest_targets (N : list pos) : list pos :=
+  filter (fun q => negb (mem_pos q (ancestors_to_prune N))) N.
+
+(* routes to all targets; descendants (unless exact) only of the lowest targets: a target above another
+   target is in ancestors_to_prune, so its children outside the two sets are cut loose like those of
+   any other ancestor *)
+Definition keep_general (N : list pos) (exact : bool) (p : pos) : bool :=
+  on_route N p || (negb exact && below_target (lowest_targets N) p).
+
+Lemma In_lowest q N : In q (lowest_targets N) <-> In q N /\ ~ In q (ancestors_to_prune N).
+Proof.
+  unfold lowest_targets. rewrite filter_In, negb_true_iff, mem_pos_false. reflexivity.
+Qed.
+
+Lemma keep_general_spec N exact p :
+  keep_general N exact p = true <->
+  (exists q, In q N /\ prefix p q) \/
+  (exact = false /\ exists q, In q N /\ ~ In q (ancestors_to_prune N) /\ prefix q p).
+Proof.
+  unfold keep_general. rewrite orb_true_iff, andb_true_iff, negb_true_iff, on_route_spec, below_target_spec.
+  split; (intros [H|[He [q Hq]]]; [left; exact H|right; split; [exact He|exists q]]).
+  - destruct Hq as [Hq Hp]. apply In_lowest in Hq as [H1 H2]. auto.
+  - destruct Hq as [H1 [H2 Hp]]. split; [apply In_lowest; auto|exact Hp].
+Qed.
+
+Lemma keep_general_survive N exact p :
+  keep_general N exact p = true -> survive (fun c => negb (detached N exact c)) p = true.
+Proof.
+  intros Hk. apply survive_spec. intros y Hy Hyp. apply negb_true_iff.
+  apply (not_detached N exact y Hy).
+  apply keep_general_spec in Hk as [[q [Hq Hpq]]|[He [q [Hq [Hlow Hqp]]]]].
+  - right. apply (on_route_in_sets N exact y q Hq). apply (prefix_trans _ _ _ Hyp Hpq).
+  - destruct (prefix_comparable y q p Hyp Hqp) as [H|H].
+    + right. apply (on_route_in_sets N exact y q Hq H).
+    + destruct (pos_eqb q y) eqn:E.
+      * apply pos_eqb_eq in E. subst. right. right. exact Hq.
+      * left. intros Hin. apply In_walk in Hin as [Hin|[Hex _]]; [|congruence].
+        apply In_ancestors in Hin as [q' [Hq' [Hp' Hn']]].
+        assert (Hqr : prefix q (removelast y)).
+        { apply proper_prefix_removelast; [exact H|]. intros ->. rewrite pos_eqb_refl in E. discriminate. }
+        apply Hlow. apply In_ancestors. exists q'. split; [exact Hq'|]. split.
+        -- apply (prefix_trans _ _ _ Hqr Hp').
+        -- intros ->. apply Hn'. apply prefix_antisym; assumption.
+Qed.
+
+Lemma survive_keep_general N exact p :
+  N <> [] -> survive (fun c => negb (detached N exact c)) p = true -> keep_general N exact p = true.
+Proof.
+  intros HN. induction p as [|i p IH] using rev_ind; intros Hs.
+  - apply keep_general_spec. left. destruct N as [|q N]; [contradiction|]. exists q.
+    split; [left; reflexivity|apply prefix_nil].
+  - apply survive_snoc in Hs as [Hs Ha]. specialize (IH Hs). apply negb_true_iff in Ha.
+    assert (Hne : p ++ [i] <> []) by (intros E; apply app_eq_nil in E as [_ E]; discriminate).
+    apply (not_detached N exact _ Hne) in Ha. rewrite removelast_snoc in Ha.
+    assert (Hsets : In (p ++ [i]) (walk_set N exact) \/ In (p ++ [i]) N -> keep_general N exact (p ++ [i]) = true).
+    { intros [Hin|Hin]; apply keep_general_spec; left.
+      - apply In_walk in Hin as [Hin|[_ Hin]].
+        + apply In_ancestors in Hin as [q [Hq [Hp _]]]. exists q. split; assumption.
+        + exists (p ++ [i]). split; [exact Hin|apply prefix_refl].
+      - exists (p ++ [i]). split; [exact Hin|apply prefix_refl]. }
+    apply keep_general_spec in IH as [[q [Hq Hpq]]|[He [q [Hq [Hlow Hqp]]]]].
+    + destruct (pos_eqb p q) eqn:E.
+      * apply pos_eqb_eq in E. subst q.
+        destruct (mem_pos p (walk_set N exact)) eqn:Ew.
+        -- apply mem_pos_In in Ew. destruct Ha as [Ha|Ha]; [contradiction|apply Hsets; exact Ha].
+        -- apply mem_pos_false in Ew. apply keep_general_spec. right.
+           assert (Hex : exact = false).
+           { destruct exact; [|reflexivity]. exfalso. apply Ew. apply In_walk. right. auto. }
+           split; [exact Hex|]. exists p. split; [exact Hq|]. split; [|apply prefix_app_l].
+           intros Hin. apply Ew. apply In_walk. left. exact Hin.
+      * destruct Ha as [Ha|Ha]; [|apply Hsets; exact Ha]. exfalso. apply Ha.
+        apply In_walk. left. apply In_ancestors. exists q. split; [exact Hq|]. split; [exact Hpq|].
+        intros ->. rewrite pos_eqb_refl in E. discriminate.
+    + apply keep_general_spec. right. split; [exact He|]. exists q. split; [exact Hq|]. split; [exact Hlow|].
+      apply (prefix_trans _ _ _ Hqp). apply prefix_app_l.
+Qed.
+
+Theorem survive_eq_keep_general N exact p :
+  N <> [] -> survive (fun c => negb (detached N exact c)) p = keep_general N exact p.
+Proof.
+  intros H. apply Bool.eq_iff_eq_true. split; [apply survive_keep_general; exact H|apply keep_general_survive].
+Qed.
+
+Theorem prune_paths_kept_general N exact t :
+  N <> [] -> obs_tree (prune_paths N exact t) = sel (keep_general N exact) t.
+Proof.
+  intros H. unfold prune_paths. rewrite filter_tree_obs. apply sel_ext. intros p.
+  apply survive_eq_keep_general. exact H.
+Qed.
+
+(* for non-nested targets every target is a lowest target *)
+Lemma lowest_non_nested N : non_nested N -> lowest_targets N = N.
+Proof.
+  intros HN. unfold lowest_targets. apply filter_all. intros q Hq. apply negb_true_iff, mem_pos_false.
+  intros Hin. apply In_ancestors in Hin as [q' [Hq' [Hp Hne]]]. apply Hne. apply (HN q q' Hq Hq' Hp).
+Qed.
+
+Theorem keep_general_non_nested N exact p : nested N = false -> keep_general N exact p = keep N exact p.
+Proof.
+  intros H. unfold keep_general, keep. rewrite (lowest_non_nested N (proj1 (nested_false N) H)). reflexivity.
+Qed.
+
+(* model level: any paths that are all found, nested or not, any separators *)
+Theorem prune_kept_general_model tsep sep t paths exact targets :
+  tsep <> [] -> sep <> [] -> paths <> [] ->
+  locate tsep sep (copy_tree t) paths = Ret targets ->
+  exists r, prune_tree tsep t (PList paths) exact sep 0 = Ret r /\
+            obs_tree r = map lbl_of (filter (fun ps => keep_general targets exact (fst ps)) (pre_pos t)).
+Proof.
+  intros Ht Hs Hp Hl. unfold prune_tree. cbn [norm_paths].
+  destruct paths as [|s paths]; [contradiction|]. destruct tsep as [|x tsep]; [contradiction|].
+  destruct sep as [|y sep]; [contradiction|]. cbn [is_nil andb orb]. rewrite Hl.
+  eexists. split; [reflexivity|]. cbn [depth_cut].
+  assert (HN : targets <> []).
+  { intros ->. apply locate_length in Hl. discriminate. }
+  rewrite (prune_paths_kept_general targets exact _ HN), sel_copy. reflexivity.
+Qed.
+
+(* ============================================================================================
+   19. Inner start node: the returned subtree is the part of the whole pruned copy below the start
+       node, and the whole pruned copy (what is above the returned node included) is `keep` of the
+       whole tree
+   ============================================================================================ *)
+
+Definition lbl_add (k : nat) (l : lbl) : lbl := match l with (d, n, a) => (k + d, n, a) end.
+
+Lemma sub_sel_abs st t s P :
+  subtree_at t st = Some s ->
+  sel (fun p => prefixb st p && P p) t = map (lbl_add (length st)) (sel (fun p => P (st ++ p)) s).
+Proof.
+  intros H. unfold sel.
+  rewrite <- (filter_filter (fun ps : pos * tree => prefixb st (fst ps)) (fun ps => P (fst ps))).
+  rewrite (sub_pre_pos st t s H), filter_map_comm, !map_map. cbn [fst].
+  apply map_ext. intros [p x]. unfold lbl_of, lbl_add. cbn [fst snd]. rewrite app_length.
+  rewrite Nat.add_succ_r. reflexivity.
+Qed.
+
+Theorem inner_result_in_whole_copy N exact t st s :
+  subtree_at t st = Some s -> N <> [] -> nested N = false -> (forall q, In q N -> prefix st q) ->
+  (* the whole copy after the surgery *)
+  obs_tree (prune_paths N exact (copy_tree t)) = sel (keep N exact) t /\
+  (* every node on the way to the start node is kept: the returned node is still attached *)
+  keep N exact st = true /\
+  (* below the start node the whole copy shows exactly the returned subtree, depths shifted *)
+  sel (fun p => prefixb st p && keep N exact p) t =
+  map (lbl_add (length st)) (obs_tree (prune_paths_at false N exact st (copy_tree s))).
+Proof.
+  intros Hst H1 H2 H3. split; [|split].
+  - rewrite (prune_paths_kept N exact _ H1 H2). apply sel_copy.
+  - apply keep_spec. left. destruct N as [|q N]; [contradiction|]. exists q.
+    split; [left; reflexivity|]. apply H3. left. reflexivity.
+  - rewrite (sub_sel_abs st t s _ Hst). f_equal. unfold prune_paths_at.
+    rewrite filter_tree_obs, sel_copy. apply sel_ext. intros p. symmetry.
+    apply survive_below; [exact H1|apply nested_false; exact H2|exact H3].
+Qed.
